@@ -116,6 +116,12 @@ func (sm *SectionModel) count(fn *ssa.Function, lm *LockModel) (int, []ssa.Instr
 	return best, wit
 }
 
+// a3Exempt: commands that by definition span several databases; the class-based count cannot tell the
+// instances apart.
+var a3Exempt = map[string]string{
+	"flushall": "empties every database in turn, one critical section per database instance",
+}
+
 const textA3 = "A3: a keyspace command (one that has key specs or the readonly/write flag in the embedded command info) opens at most one critical section of the database mutex on any path — the whole read-modify-write of the command happens under one hold; blocking commands are judged per attempt (each closure they hand to the wait loop)"
 
 func ruleA3(c *Ctx) {
@@ -169,6 +175,10 @@ func ruleA3(c *Ctx) {
 			continue
 		}
 		done[key] = true
+		if why, ok := a3Exempt[tok]; ok {
+			c.S.Trivial("A3-sections", key, c.Pos(h.Pos()), "exempt: "+why)
+			continue
+		}
 		c.reportSections(sm, key, h, "command "+tok)
 	}
 }
